@@ -9,6 +9,7 @@ rounded reciprocal per weight) within 2^-40 relative, exceptions as None -- all 
 Direct oracle: NumPy take / add.at bin sums and means on the implementation, adjointness by exact
 integer inner products, exactness on |f|^2 = distribute(p), phase split adds up."""
 import json
+import os
 from fractions import Fraction
 
 import numpy as np
@@ -592,7 +593,16 @@ class C10(C.Check):
         self.cases = corpus + gen_cases(ctx, n)
         self.obs = [run_case(c) for c in self.cases]
         checks = [coq_check(c, o) for c, o in zip(self.cases, self.obs)]
-        bad = C.eval_cases(self.prop, "corr", HEADER, checks, shard=60 if ctx.quick else 200, jobs=5)
+        tag = "corr_%d" % os.getpid()          # per-process scratch names: concurrent runs do not collide
+        try:
+            bad = C.eval_cases(self.prop, tag, HEADER, checks, shard=60 if ctx.quick else 200, jobs=5)
+        finally:
+            for f in os.listdir(ctx.run_dir()):
+                if f.startswith("cases_%s_" % tag) or f.startswith(".cases_%s_" % tag):
+                    try:
+                        os.remove(os.path.join(ctx.run_dir(), f))
+                    except OSError:
+                        pass
         for i in bad[:4]:
             res.add_broken("correspondence", "%s vs coq/C10/Model.v" % signature(self.cases[i])["fn"],
                            {"case": self.cases[i], "observed": {k: v for k, v in self.obs[i].items() if k in ("error", "message", "out", "specs", "pindex", "nbin")}})
